@@ -93,6 +93,9 @@ def build_T14(tree):
                                PARAMS3 + [('is_container', 'bool')], {},
                                doc='`ContentSequence.__init__`: checks applied to every item offered'))
     index_loops = [l for l in loops if l is not check_loops[0]]
+    first_if = [st for st in body if isinstance(st, ast.If) and _norm(st.test) == 'itemsisnotNone'][0]
+    if not first_if.body or _norm(first_if.body[0]) != 'items=list(items)':
+        raise Unsupported('__init__: items is no longer copied into a list first (one-shot iterators)')
     if len(index_loops) != 1 or _norm(index_loops[0]) != f'for{index_loops[0].target.id}initems:self._lut[{index_loops[0].target.id}.name].append({index_loops[0].target.id})':
         raise Unsupported('__init__: the indexing loop changed')
     # ---- append / insert
@@ -103,7 +106,9 @@ def build_T14(tree):
         rest = body[len(ifs):]
         if len(ifs) != 2 or len(rest) != 2:
             raise Unsupported(f'{meth}: expected two guards followed by the index update and the list call')
-        want = ['self._lut[val.name].append(val)', 'super().append(val)' if meth == 'append' else 'super().insert(position,val)']
+        # insert: the list call comes first (it raises for a position that is not an int), then the index
+        want = ['self._lut[val.name].append(val)', 'super().append(val)'] if meth == 'append' else \
+            ['super().insert(position,val)', 'self._lut[val.name].append(val)']
         if [_norm(s) for s in rest] != want:
             raise Unsupported(f'{meth}: tail is no longer {want}')
         shas.append(span_sha(body))
@@ -112,8 +117,9 @@ def build_T14(tree):
     # ---- extend / __iadd__
     fn = find_func(tree, f'{cls}.extend')
     body = strip_doc(fn.body)
-    if len(body) != 1 or _norm(body[0]) != 'foriteminval:self.append(item)':
-        raise Unsupported('extend is no longer `for item in val: self.append(item)`')
+    if len(body) != 1 or _norm(body[0]) != 'foriteminlist(val):self.append(item)':
+        raise Unsupported('extend is no longer `for item in list(val): self.append(item)` (a copy: the argument may be '
+                          'the sequence itself)')
     fn = find_func(tree, f'{cls}.__iadd__')
     body = strip_doc(fn.body)
     if [_norm(s) for s in body] != ['self.extend(val)', 'returnself']:
@@ -131,6 +137,10 @@ def build_T14(tree):
     shas.append(span_sha(body))
     out.append(translate_block(_rewrite(loops[0].body, _table(loops[0].target.id)) + [_ret('True')], 'csSetitemCheck', PARAMS3, {},
                                doc='`ContentSequence.__setitem__`: checks applied to every item offered'))
+    sa = find_func(tree, 'ContentItem.__setattr__')
+    if ''.join(_norm(x) for x in strip_doc(sa.body)) != \
+            "ifname=='ContentSequence':super().__setattr__(name,ContentSequence(value))else:super().__setattr__(name,value)":
+        raise Unsupported('ContentItem.__setattr__ no longer wraps ContentSequence values in ContentSequence(value)')
     txt = ''.join(_norm(s) for s in body)
     i_loop, i_old, i_set = txt.find('foriinitems:'), txt.find('replaced_items='), txt.find('super().__setitem__(idx,val)')
     i_rm, i_add = txt.find('delself._lut[i.name][index]'), txt.rfind('self._lut[i.name].append(i)')
@@ -173,7 +183,8 @@ def _remove_loop(st):
     body = [_norm(s) for s in st.body]
     if body and body[0] == f'{v}=cast(ContentItem,{v})':
         body = body[1:]
-    m = _re.fullmatch(rf'(\w+)=self\._lut\[{v}\.name\]\.index\({v}\)', body[0]) if len(body) == 2 else None
+    # identity, not equality: `index = [m is i for m in self._lut[i.name]].index(True)`
+    m = _re.fullmatch(rf'(\w+)=\[(\w+)is{v}for\2inself\._lut\[{v}\.name\]\]\.index\(True\)', body[0]) if len(body) == 2 else None
     if m and body[1] == f'delself._lut[{v}.name][{m.group(1)}]':
         return st.iter.id
     return None
@@ -249,10 +260,11 @@ def _mutator(tree, cls, meth, fn=None):
                 if st.orelse:
                     if [_norm(s) for s in st.orelse] != ['super().__init__()']:
                         raise Unsupported('__init__: else-branch is not super().__init__()')
-                    if not inner or _norm(inner[0]) != 'super().__init__(items)':
-                        raise Unsupported('__init__: items branch does not start with super().__init__(items)')
+                    if len(inner) < 2 or [_norm(x) for x in inner[:2]] != ['items=list(items)', 'super().__init__(items)']:
+                        raise Unsupported('__init__: items branch does not start with items = list(items); super().__init__(items)')
+                    out.append('normArgs')
                     out.append('listInit')
-                    inner = inner[1:]
+                    inner = inner[2:]
                 for s in inner:
                     if _append_loop(s) == 'items':
                         out.append('lutAppendArgs')
@@ -269,7 +281,7 @@ def _mutator(tree, cls, meth, fn=None):
             out.append('listAppend')
         elif n == 'super().insert(position,val)' and meth == 'insert':
             out.append('listInsert')
-        elif meth == 'extend' and isinstance(st, ast.For) and _norm(st.iter) == 'val' and isinstance(st.target, ast.Name) \
+        elif meth == 'extend' and isinstance(st, ast.For) and _norm(st.iter) == 'list(val)' and isinstance(st.target, ast.Name) \
                 and [_norm(s) for s in st.body] == [f'self.append({st.target.id})'] and not st.orelse:
             out.append('forEachArg .append')
         elif meth == '__iadd__' and n == 'self.extend(val)':
@@ -405,6 +417,9 @@ def build_T14p(tree):
     fn = find_func(tree, f'{cls}.__contains__')
     body = strip_doc(fn.body)
     ok = [_norm(s) for s in body] == ['try:self.index(val)exceptValueError:returnFalse', 'returnTrue']
+    methods = sorted({n.name for n in cnode.body if isinstance(n, ast.FunctionDef)})
+    out.append(lean_table('csMethods', 'List String', ['"' + m + '"' for m in methods],
+                          doc='every method the class ContentSequence defines itself (a new override must be modelled)'))
     out.append('/-- `__contains__` is `index` with ValueError turned into False -/\n'
                f'def csContainsViaIndex : Bool := {"true" if ok else "false"}')
     shas.append(span_sha(body))
